@@ -129,7 +129,8 @@ class FakeCL(object):
 
 
 class Node(object):
-    def __init__(self, node_id, rx_routes=(), tx_routes=(), accept_after_verify=False, name=None, apps=None, config_extra=None):
+    def __init__(self, node_id, rx_routes=(), tx_routes=(), accept_after_verify=False, name=None, apps=None, config_extra=None,
+                 strict_routes=True):
         ''' rx_routes: [(regex, action)], tx_routes: [(regex, next_node, mtu)] '''
         self.node_id = node_id
         self.ctx = simloop.Context(name or node_id)
@@ -146,7 +147,9 @@ class Node(object):
         self._doc = doc
         cfg = bp.config.Config()
         self._load(cfg)
-        if len(cfg.rx_route_table) != len(doc['rx_route_table']) or len(cfg.tx_route_table) != len(doc['tx_route_table']):
+        # (strict_routes=False: the routing table is the input under test - C10 - and what the loader makes of it is judged
+        # by the check's own oracle, not taken for a mistake of the harness)
+        if strict_routes and (len(cfg.rx_route_table) != len(doc['rx_route_table']) or len(cfg.tx_route_table) != len(doc['tx_route_table'])):
             raise boot.BootError('a route entry of the harness was rejected by Config.from_file')
         self.config = cfg
         with simloop.entered(self.ctx):
